@@ -1,16 +1,26 @@
-use std::{cell::RefCell, fmt, rc::Rc};
+use std::{
+    cell::RefCell,
+    fmt,
+    rc::{Rc, Weak},
+};
 
 use crate::{
     container::Container,
     object::{Object, RTObject},
     path::{Component, Path},
-    pointer::{self, Pointer},
+    pointer::Pointer,
     push_pop::PushPopType,
 };
 
 pub struct Divert {
     obj: Object,
-    target_pointer: RefCell<Pointer>,
+    /// Cache of the resolved target: (container, index).  The container is
+    /// held weakly: the target of a divert is very often an ancestor of the
+    /// divert itself (every loop back to the enclosing knot or weave point),
+    /// and a strong reference stored inside one of its own descendants would
+    /// form an `Rc` cycle that keeps the whole content tree alive after the
+    /// story is dropped.
+    target_pointer: RefCell<Option<(Weak<Container>, i32)>>,
     target_path: RefCell<Option<Path>>,
     pub external_args: usize,
     pub is_conditional: bool,
@@ -37,7 +47,7 @@ impl Divert {
             stack_push_type,
             is_external,
             external_args,
-            target_pointer: RefCell::new(pointer::NULL.clone()),
+            target_pointer: RefCell::new(None),
             target_path: RefCell::new(Self::target_path_string(target_path)),
             variable_divert_name: var_divert_name,
         }
@@ -80,39 +90,36 @@ impl Divert {
     }
 
     pub fn get_target_pointer(self: &Rc<Self>) -> Pointer {
-        let target_pointer_null = self.target_pointer.borrow().is_null();
-        if target_pointer_null {
-            let target_obj =
-                Object::resolve_path(self.clone(), self.target_path.borrow().as_ref().unwrap())
-                    .obj
-                    .clone();
-
-            if self
-                .target_path
-                .borrow()
-                .as_ref()
-                .unwrap()
-                .get_last_component()
-                .unwrap()
-                .is_index()
-            {
-                self.target_pointer.borrow_mut().container = target_obj.get_object().get_parent();
-                self.target_pointer.borrow_mut().index = self
-                    .target_path
-                    .borrow()
-                    .as_ref()
-                    .unwrap()
-                    .get_last_component()
-                    .unwrap()
-                    .index
-                    .unwrap() as i32;
-            } else {
-                let c = target_obj.into_any().downcast::<Container>();
-                self.target_pointer.replace(Pointer::start_of(c.unwrap()));
-            }
+        if let Some((container, index)) = self.target_pointer.borrow().as_ref()
+            && let Some(container) = container.upgrade()
+        {
+            return Pointer::new(Some(container), *index);
         }
 
-        self.target_pointer.borrow().clone()
+        let pointer = self.resolve_target_pointer();
+        if let Some(container) = &pointer.container {
+            self.target_pointer
+                .replace(Some((Rc::downgrade(container), pointer.index)));
+        }
+
+        pointer
+    }
+
+    fn resolve_target_pointer(self: &Rc<Self>) -> Pointer {
+        let target_path = self.target_path.borrow();
+        let target_path = target_path.as_ref().unwrap();
+        let target_obj = Object::resolve_path(self.clone(), target_path).obj.clone();
+        let last_component = target_path.get_last_component().unwrap();
+
+        if last_component.is_index() {
+            Pointer::new(
+                target_obj.get_object().get_parent(),
+                last_component.index.unwrap() as i32,
+            )
+        } else {
+            let c = target_obj.into_any().downcast::<Container>();
+            Pointer::start_of(c.unwrap())
+        }
     }
 
     pub fn get_target_path(self: &Rc<Self>) -> Option<Path> {
